@@ -38,7 +38,51 @@ func (o *Obligation) script(e *Enc, extraAssume string, getValues []string) stri
 	if n > len(e.out) {
 		n = len(e.out)
 	}
-	for _, l := range e.out[:n] {
+	// relevance filter for axioms (see axiomLine)
+	skip := map[int]bool{}
+	if len(e.axiomLines) > 0 {
+		isAx := map[int]bool{}
+		for _, a := range e.axiomLines {
+			for i := a.lo; i < a.hi && i < n; i++ {
+				isAx[i] = true
+			}
+		}
+		var rest strings.Builder
+		for i, l := range e.out[:n] {
+			if !isAx[i] || !strings.HasPrefix(l, "(assert") {
+				if strings.HasPrefix(l, "(declare-") {
+					continue // a declaration is not a use
+				}
+				rest.WriteString(l)
+				rest.WriteByte('\n')
+			}
+		}
+		for _, l := range o.Extra {
+			rest.WriteString(l)
+		}
+		rest.WriteString(extraAssume + o.Reach + o.Goal + strings.Join(getValues, " "))
+		text := rest.String()
+		for _, a := range e.axiomLines {
+			used := len(a.syms) == 0
+			for _, sname := range a.syms {
+				if strings.Contains(text, sname) {
+					used = true
+					break
+				}
+			}
+			if !used {
+				for i := a.lo; i < a.hi && i < n; i++ {
+					if strings.HasPrefix(e.out[i], "(assert") {
+						skip[i] = true
+					}
+				}
+			}
+		}
+	}
+	for i, l := range e.out[:n] {
+		if skip[i] {
+			continue
+		}
 		b.WriteString(l)
 		b.WriteByte('\n')
 	}
